@@ -132,10 +132,10 @@ pub fn exec(toks: &[&str]) -> String {
             let (nb, na) = (v.not_before(), v.not_after());
             let len = na.timestamp() - nb.timestamp();
             let ordered = nb <= na;
-            let long = (len - secs.abs()).abs() <= 1;
+            let long = (len - secs.abs()).abs() <= 3;   // two clock readings inside from_duration; generous against a loaded machine
             let anchored = if secs >= 0 { before <= nb && nb <= after } else { before <= na && na <= after };
             let v2 = Validity::from_duration(chrono::TimeDelta::try_seconds(secs).unwrap());
-            let same = (v2.not_after().timestamp() - v2.not_before().timestamp() - len).abs() <= 1;
+            let same = (v2.not_after().timestamp() - v2.not_before().timestamp() - len).abs() <= 3;
             format!("ordered={} length={} anchored={} from_duration={}", ordered, long, anchored, same)
         }
         ["validity", nb, na, now] => {
